@@ -14,6 +14,7 @@ import (
 const modelMax = 5000
 
 func emitCase(emit Emit, c editops.ECase, withModel bool) {
+	emitTables(emit, c)
 	args := append([]string{H(c.Img)}, editops.Tokens(c.Ops)...)
 	emit("P", "p_c02", args...)
 	if withModel && len(c.Img) <= modelMax {
@@ -46,18 +47,23 @@ func gen(r *Rng, tier string, emit Emit) {
 	// the two renderings of the reader agree, also on images that break one rule
 	for it := 0; it < nmut; it++ {
 		rr := r.Fork(uint64(1000000 + it))
+		// mutants of compressed payloads would compare two LZMA/zlib decoders, not the readers
+		editops.Compressed = it%4 == 0
 		reg := editops.GenRegionSpec(rr, rr.Pick(0, 1), true)
+		mutate := !editops.RegionHasCompressed(reg)
+		editops.Compressed = true
 		img, fields := uefigen.EmitRegion(reg)
 		if len(img) > modelMax {
 			continue
 		}
+		emitTables(emit, editops.ECase{Img: img, Comp: editops.RegionHasCompressed(reg)})
 		emit("C", "valid", H(img))
-		for k := 0; k < 12 && len(fields) > 0; k++ {
+		for k := 0; mutate && k < 12 && len(fields) > 0; k++ {
 			f := fields[rr.Intn(len(fields))]
 			vs := uefigen.BoundaryValues(f)
 			emit("C", "valid", H(uefigen.Mutate(img, f, vs[rr.Intn(len(vs))])))
 		}
-		for k := 0; k < 4; k++ {
+		for k := 0; mutate && k < 4; k++ {
 			m := append([]byte{}, img...)
 			m[rr.Intn(len(m))] ^= byte(1 << uint(rr.Intn(8)))
 			emit("C", "valid", H(m))
@@ -78,8 +84,18 @@ func gen(r *Rng, tier string, emit Emit) {
 	})
 }
 
+func emitTables(emit Emit, c editops.ECase) {
+	if !c.Comp {
+		return
+	}
+	for _, t := range editops.CodecTables(c.Img, c.Ops) {
+		emit("T", "codec", t.Dir, t.Kind, t.In, t.Out)
+	}
+}
+
 func main() {
 	CaseTimeout = 20 * time.Second
+	editops.Enc = editops.FianoEnc
 	editops.RegisterAll()
 	Main(gen)
 }
